@@ -52,7 +52,7 @@ def check_array_readme(path, scratch, model_shape=None, has_meta=None, who='arra
                 return (f'readme.{who}', 'dimensions_not_stated', '')
         mentioned = 'metadata.json' in txt
         hm = os.path.exists(os.path.join(path, 'metadata.json')) if has_meta is None else has_meta
-        if who == 'array' and mentioned != bool(hm):
+        if who in ('array', 'array_copy') and mentioned != bool(hm):
             return (f'readme.{who}', 'metadata_mention_' + ('stale' if mentioned else 'missing'), '')
     finally:
         shutil.rmtree(scratch, ignore_errors=True)
